@@ -182,6 +182,7 @@ class Fn:
             if d is not None:
                 if d in self.names: return self.names[d]
                 if isinstance(e, ast.Name):
+                    if d in self.spec.get("optional_as_str", ()): return "(%s.getD [])" % self.ident(d)
                     if d in self.locals: return self.ident(d)
                     raise Unsupported("unbound name %s" % d)
                 # longest bound prefix, remaining attributes as fields
